@@ -29,7 +29,7 @@ ASSUMPTIONS = ["as C01"]
 REQUIRED_CLASSES = {"all": ["blocks=3", "blocks=4", "params=3", "repr=sparse", "repr=sympy", "selection=mask", "selection=full"]}
 
 
-FORMS = ("indices", "indices", "indices", "blocks", "blocks", "eigvecs")
+FORMS = ("indices", "indices", "indices", "blocks", "blocks", "eigvecs", "symmatrix")
 
 
 def strategy(tier):
